@@ -2,4 +2,4 @@
 From Coq Require Import ExtrOcamlBasic.
 From Ragc Require Import Mach MurMur LZ.
 Extraction Language OCaml.
-Extraction "model.ml" keep_types murmur64 lz_new lz_prepare lz_encode lz_decode encode decode_full decode_plain sym_okb.
+Extraction "model.ml" keep_types murmur64 lz_new lz_prepare lz_encode lz_decode encode decode_full decode_plain sym_okb cost_vector estimate.
